@@ -143,8 +143,14 @@ pub enum Dl {
 pub enum Op {
     /// `outs[out].send(child).await`
     Send { out: u8, script: u16 },
-    /// `reqs[req].send(child).await`, replies are logged
-    Query { req: u8, script: u16 },
+    /// `reqs[req].send(child).await`, replies are logged; `take` = k > 0: only the first k items
+    /// of the reply iterator are read, the rest is dropped with the iterator
+    Query {
+        req: u8,
+        script: u16,
+        #[serde(default)]
+        take: u8,
+    },
     /// `cx.schedule_*` on self
     Sched {
         dl: Dl,
@@ -541,15 +547,16 @@ impl Node {
                     self.outs[*out as usize].send(c).await;
                     OpRes::Sent
                 }
-                Op::Query { req, script } => {
+                Op::Query { req, script, take } => {
                     if m.ttl == 0 || *req as usize >= self.reqs.len() {
                         continue;
                     }
                     let c = self.child(m, i, *script, now);
+                    let k = if *take == 0 { usize::MAX } else { *take as usize };
                     let replies: Vec<Reply> = match &mut self.reqs[*req as usize] {
-                        ReqPort::Multi(r) => r.send(c).await.collect(),
+                        ReqPort::Multi(r) => r.send(c).await.take(k).collect(),
                         // a uni-requestor yields at most one reply (none if its filter rejects)
-                        ReqPort::Uni(r) => r.send(c).await.into_iter().collect(),
+                        ReqPort::Uni(r) => r.send(c).await.into_iter().take(k).collect(),
                     };
                     if self.shared.vclock {
                         for r in &replies {
